@@ -82,6 +82,15 @@ class EncodeBodySection(Contract):
             ob("C08.context_carries_the_computed_boundaries", same(kwargs.get("col_widths"), g["cw"]))
             ob("C09.context_carries_the_column_reduced_attributes", same(kwargs.get("table_attrs"), g["proc_attrs"]))
             ob("C03.reserved_rows_reach_the_strategy", to_z3(kwargs.get("additional_rows_per_page")) == g["ADD"] if kwargs.get("additional_rows_per_page") is not None else False)
+            # C03 / C04: the row budget measures the displayed cells only (RowMetadata's REMOVED predicate); the context must name exactly the
+            # original columns that are not displayed, by their positions in the ORIGINAL frame
+            rci = kwargs.get("removed_column_indices")
+            if isinstance(rci, Ref):
+                od_ = st.obj(g["orig_df"])
+                for nm, f in self._removed_spec(st, rci, od_.w).items():
+                    ob("C03.context_lists_exactly_the_columns_removed_from_display." + nm, f)
+            else:
+                ob("C03.context_lists_exactly_the_columns_removed_from_display", False)
             ref = st.alloc(RecObj("PaginationContext", dict(kwargs), pyclass=cv.pyclass, fresh=True))
             g["ctx"] = ref
             return ref
@@ -135,6 +144,9 @@ class EncodeBodySection(Contract):
             # contract of prepare_dataframe_for_body_encoding (assumed here, see properties' assumptions): clone keeps everything; the
             # reduced frame keeps all rows and a subset of the columns; the reduced attributes carry one relative width per displayed column
             st.assume(od.n == d.n, od.w == d.w, pd.n == d.n, pd.w >= 0, pd.w <= d.w)
+            # (unit PrepareFrame: the reduced frame holds the kept original columns, names unique) - with the same width every original column is displayed
+            ji, jj = z3.Ints("ji jj")
+            st.assume(Implies(pd.w == od.w, ForAll([ji], Implies(And(0 <= ji, ji < od.w), z3.Exists([jj], And(0 <= jj, jj < pd.w, pd.colname(jj) == od.colname(ji)))))))
             rel = st.alloc(ListObj(length=pd.w, get=lambda j: z3.Real(fresh_name("relw")), fresh=True))
             attrs = st.alloc(RecObj("RTFBody", {"col_rel_width": rel}, pyclass=st.obj(vv["body"]).pyclass, fresh=True))
             st.ghost.update(orig_df=orig, proc_df=proc, proc_attrs=attrs, rel=rel)
@@ -190,8 +202,25 @@ class EncodeBodySection(Contract):
     def setup_loops(self, c):
         self._v = v = c.v
 
+        def removed_spec(st, lst_ref, upto):
+            """`lst` lists, in increasing order, exactly the positions e < upto of original columns whose name is not a column of the reduced frame."""
+            g_ = st.ghost
+            od, pd = st.obj(g_["orig_df"]), st.obj(g_["proc_df"])
+            n, g = safe_view(st, st.obj(lst_ref), IntVal(-1))
+            k, e, j = z3.Ints("k e j")
+            gone = lambda x: Not(z3.Exists([j], And(0 <= j, j < pd.w, pd.colname(j) == od.colname(x))))
+            return {"entries_are_removed_columns_in_increasing_order": And(
+                        ForAll([k], Implies(And(0 <= k, k < to_z3(n)), And(0 <= to_z3(g(k)), to_z3(g(k)) < upto, gone(to_z3(g(k)))))),
+                        ForAll([k], Implies(And(0 <= k, k + 1 < to_z3(n)), to_z3(g(k)) < to_z3(g(k + 1))))),
+                    "every_removed_column_is_listed": ForAll([e], Implies(And(0 <= e, e < upto, gone(e)), z3.Exists([k], And(0 <= k, k < to_z3(n), to_z3(g(k)) == e))))}
+        self._removed_spec = removed_spec
+
         def inv_removed(vv):
-            return {"range": vv.i >= 0}
+            st = vv._state
+            od = st.obj(st.ghost["orig_df"])
+            cl = {"range": And(0 <= vv.i, vv.i <= od.w)}
+            cl.update(removed_spec(st, vv.removed_column_indices, vv.i))
+            return cl
 
         def inv_pages(vv):
             lst = vv.obj(vv.section_rtf_chunks)
